@@ -15,7 +15,7 @@ import (
 
 func init() {
 	Registry["C04"] = Set{
-		Explanation: "Decides structural clauses of link/monitor notification: L1 each of the 8 local branches of RouteLink*/RouteMonitor* consults the identity table of the target's kind (PID->processes, ProcessID->names, Alias->aliases, Event->events), returns an error on the not-found edge before any relation is added, and link functions add links / monitor functions add monitors with the function's own target; L2 every removal of an identity that can be linked or monitored is followed by the RouteTerminate* of the same kind (process release, UnregisterName, DeleteAlias, unregisterEvent, the meta termination sites, failed spawn); L3 the existence check and the relation insert are ordered or atomic against the terminator's delete-then-drain (today all 8 sites check, then insert, without re-validation: open known finding F-F); L4 each RouteTerminate* drains with exactly one CleanupTarget and sends exactly one exit per link consumer and one High-priority down per monitor consumer, each carrying the function's target and reason; remote consumers' nodes get one Terminate frame; L5 RouteUnlink*/RouteDemonitor* call the matching Remove*; L7 in the default target manager every insert/delete on the relation set is paired on every path with the matching change of the per-target index, under the write lock. Added while probing: L2c the per-process alias list the drain walks is maintained by remove-by-swap correctly; L4 also requires that the exit/down loops walk the whole consumer lists CleanupTarget returned (first result: links, second: monitors); L6 LinkChild on every spawn form adds the parent->child link after the child exists; L7 additionally: an index entry is deleted only when its list is empty; L8 the helper that delivers exits builds a mailbox message of type Exit. L9 no critical section of the default target manager's lock calls anything that takes that lock again (lock re-entrancy through the call graph). L10 lock pairing — in every function that touches the target manager's lock a forward data flow over (held read/write, unlock deferred) shows: no return while the lock is held without a deferred unlock, no unlock (explicit or deferred) of a lock that is not held or of the other kind, no second lock (a leaked lock blocks every later link/monitor/termination for ever, an unlock of an unlocked mutex is a fatal error that takes the node down).",
+		Explanation: "Decides structural clauses of link/monitor notification: L1 each of the 8 local branches of RouteLink*/RouteMonitor* consults the identity table of the target's kind (PID->processes, ProcessID->names, Alias->aliases, Event->events), returns an error on the not-found edge before any relation is added, and link functions add links / monitor functions add monitors with the function's own target; L2 every removal of an identity that can be linked or monitored is followed by the RouteTerminate* of the same kind (process release, UnregisterName, DeleteAlias, unregisterEvent, the meta termination sites, failed spawn); L3 the existence check and the relation insert are ordered or atomic against the terminator's delete-then-drain (today all 8 sites check, then insert, without re-validation: open known finding F-F); L4 each RouteTerminate* drains with exactly one CleanupTarget and sends exactly one exit per link consumer and one High-priority down per monitor consumer, each carrying the function's target and reason; remote consumers' nodes get one Terminate frame; L5 RouteUnlink*/RouteDemonitor* call the matching Remove*; L7 in the default target manager every insert/delete on the relation set is paired on every path with the matching change of the per-target index, under the write lock. Added while probing: L2c the per-process alias list the drain walks is maintained by remove-by-swap correctly; L4 also requires that the exit/down loops walk the whole consumer lists CleanupTarget returned (first result: links, second: monitors); L6 LinkChild on every spawn form adds the parent->child link after the child exists; L7 additionally: an index entry is deleted only when its list is empty; L8 the helper that delivers exits builds a mailbox message of type Exit. L9 no critical section of the default target manager's lock calls anything that takes that lock again (lock re-entrancy through the call graph). L10 lock pairing — in every function that touches the target manager's lock a forward data flow over (held read/write, unlock deferred) shows: no return while the lock is held without a deferred unlock, no unlock (explicit or deferred) of a lock that is not held or of the other kind, no second lock (a leaked lock blocks every later link/monitor/termination for ever, an unlock of an unlocked mutex is a fatal error that takes the node down). L11 every method of the default target manager that changes the relation set takes the write lock exactly once, never the read lock, and touches the maps only inside that one critical section (what a Cleanup* returns is exactly what it removed). L2c also anchors on the cut itself: a field slice cut by its first element must have saved that element into the removed slot, cut by its last one after a swap with it or a shift of the tail. L6 for local starts the parent->child link is made by spawn, under LinkChild, before the child is entered into the process table; the spawn forms hand their options through.",
 		NotDecided: []string{
 			"behaviour of user-supplied TargetManager implementations",
 			"delivery of the notification message itself (C02), remote fan-out framing (C12/C14)",
@@ -41,11 +41,14 @@ func runC04(p *load.Program, r *core.Report) {
 	c04MetaAndSpawnDrain(a, r)
 	// the drain at termination walks the process's alias list: its maintenance is part of L2
 	swapDeleteRules(a, r, "C04.L2c identity-list-maintenance")
+	resliceRemoval(a, r, "C04.L2c identity-list-maintenance")
 	c04Fanout(a, r)
 	c04Remove(a, r)
 	c04Index(a, r)
 	c04SpawnLinks(a, r)
+	c04SpawnLinkChild(a, r, "C04.L6 link-child-on-spawn")
 	c04ExitSignal(a, r)
+	c04SingleCriticalSection(a, r)
 	lockPairing(a.P, r, "C04.L10 relation-lock-paired", "C04.L10", 11, func(o string) bool { return strings.Contains(o, "defaultTargetManager") })
 	lockReentrancy(a.P, r, "C04.L9 relation-lock-not-reentered", "C04.L9", 11, func(o string) bool { return strings.Contains(o, "defaultTargetManager") })
 }
@@ -118,6 +121,31 @@ func c04SpawnLinks(a *Anchors, r *core.Report) {
 		fn := fname(f)
 		key := "C04.L6|" + f.Name()
 		inst := f.Name() + ": with LinkChild the parent is linked to the started child (parent pid -> child pid), only after a successful start"
+		if callsNamed(sp, "spawn") {
+			// local start: the link must exist before the child can terminate, so spawn makes it (judged
+			// below); the form only has to hand its options (with LinkChild) through
+			inst = f.Name() + ": the caller's options (with LinkChild) reach spawn, which links parent and child before the child is published"
+			passes := false
+			var optPar *ssa.Parameter
+			for _, pa := range f.Params {
+				if namedOf(pa.Type()) == "gen.ProcessOptions" {
+					optPar = pa
+				}
+			}
+			eachInstr(f, func(in ssa.Instruction) {
+				if st, ok := in.(*ssa.Store); ok {
+					if _, fl := fieldOwner(st.Addr); fl == "ProcessOptions" && (st.Val == ssa.Value(optPar) || isParamValue(st.Val, optPar)) {
+						passes = true
+					}
+				}
+			})
+			if passes {
+				r.OK(rule, key, fn, a.P.Pos(sp.Pos()), inst, "ProcessOptionsExtra.ProcessOptions = options")
+			} else {
+				r.Bad(rule, key, fn, a.P.Pos(sp.Pos()), inst, "the options given to spawn are not the caller's: LinkChild is lost and the parent never learns that the child terminated")
+			}
+			continue
+		}
 		var add ssa.Instruction
 		eachInstr(f, func(in ssa.Instruction) {
 			if callsNamed(in, "AddLink") {
@@ -169,6 +197,70 @@ func c04SpawnLinks(a *Anchors, r *core.Report) {
 			r.Bad(rule, key, fn, a.P.Pos(sp.Pos()), inst, strings.Join(probs, "; "))
 		} else {
 			r.OK(rule, key, fn, a.P.Pos(add.Pos()), inst, "AddLink(p.pid, childpid) under LinkChild after err == nil")
+		}
+	}
+}
+
+// c04SpawnLinkChild: L6s — spawn itself links the parent to the child when LinkChild is set, BEFORE
+// the child is entered into the process table: once it is there it can terminate, and a link added
+// afterwards is never answered (the drain of the child's relations has already happened).
+func c04SpawnLinkChild(a *Anchors, r *core.Report, rule string) {
+	rid := strings.SplitN(rule, " ", 2)[0]
+	f := a.P.Func("node", a.NodeT.Obj().Name(), "spawn")
+	if f == nil {
+		r.Unk(rule, rid+"|spawn", "", "", "spawn found", "not found")
+		return
+	}
+	fn := fname(f)
+	key := rid + "|spawn|link-before-publication"
+	inst := "with LinkChild the parent->child link is added before the child is published in the process table"
+	var pub, add ssa.Instruction
+	eachInstr(f, func(in ssa.Instruction) {
+		cc := callCommon(in)
+		if cc == nil {
+			return
+		}
+		if m, ok := syncMapCall(cc); ok && m == "Store" && tableOf(a, cc) == "processes" {
+			pub = in
+		}
+		if callsNamed(in, "AddLink") {
+			args := cc.Args
+			if !cc.IsInvoke() {
+				args = args[1:]
+			}
+			// consumer = parent, target = the new pid
+			_, p0, _ := fieldPath(args[0])
+			_, p1, _ := fieldPath(stripIface(args[1]))
+			if len(p0) > 0 && p0[len(p0)-1] == "parent" && len(p1) > 0 && p1[len(p1)-1] == "pid" {
+				add = in
+			}
+		}
+	})
+	switch {
+	case pub == nil:
+		r.Unk(rule, key, fn, a.P.Pos(f.Pos()), inst, "the insert into the process table was not found")
+	case add == nil:
+		r.Bad(rule, key, fn, a.P.Pos(pub.Pos()), inst, "spawn does not link the parent to the child: a link added by the caller after spawn returned races with the child's termination — a child that dies at once is never noticed (a supervisor keeps a dead pid in its list)")
+	default:
+		guarded := false
+		eachInstr(f, func(in ssa.Instruction) {
+			v, ok := in.(ssa.Value)
+			if !ok {
+				return
+			}
+			if _, path, okp := fieldPath(v); okp && len(path) > 0 && path[len(path)-1] == "LinkChild" {
+				if t, _, _ := boolEdges(v); len(t) > 0 && edgesDominate(t, add) {
+					guarded = true
+				}
+			}
+		})
+		switch {
+		case !guarded:
+			r.Bad(rule, key, fn, a.P.Pos(add.Pos()), inst, "the link is not conditioned on LinkChild")
+		case !instrReachable(add, pub) || instrReachable(pub, add):
+			r.Bad(rule, key, fn, a.P.Pos(add.Pos()), inst, "the link is added after the child was entered into the process table: the child can terminate in between")
+		default:
+			r.OK(rule, key, fn, a.P.Pos(add.Pos()), inst, "AddLink(parent, pid) under LinkChild, before processes.Store")
 		}
 	}
 }
@@ -898,3 +990,109 @@ func c04Index(a *Anchors, r *core.Report) {
 }
 
 var _ = load.Module
+
+// c04SingleCriticalSection: L11 — the add / re-check / remove logic of RouteLink*/RouteMonitor* and
+// "exactly one notification" rest on the target manager's mutating operations being atomic: what a
+// Cleanup* returns is exactly what it removed, and nothing can be added in between. Every method of
+// the default target manager that changes the relation set or the index takes the WRITE lock exactly
+// once, never the read lock, and touches the two maps only inside that one critical section.
+func c04SingleCriticalSection(a *Anchors, r *core.Report) {
+	rule := "C04.L11 mutating-operations-are-one-critical-section"
+	r.Floor(rule, 7)
+	tmT := a.P.Named("gen", "defaultTargetManager")
+	if tmT == nil {
+		r.Unk(rule, "C04.L11|type", "", "", "default target manager found", "not found")
+		return
+	}
+	isMapField := func(v ssa.Value) bool {
+		_, path, ok := fieldPath(v)
+		return ok && len(path) > 0 && (path[len(path)-1] == "relations" || path[len(path)-1] == "targetIndex")
+	}
+	for _, f := range funcsOfPkgs(a.P, "gen") {
+		if f.Parent() != nil || !recvIs(f, tmT) {
+			continue
+		}
+		mutates := false
+		var accesses []ssa.Instruction
+		for _, g := range family(f) {
+			eachInstr(g, func(in ssa.Instruction) {
+				switch x := in.(type) {
+				case *ssa.MapUpdate:
+					if isMapField(x.Map) {
+						mutates = true
+						accesses = append(accesses, in)
+					}
+				case *ssa.Lookup:
+					if isMapField(x.X) {
+						accesses = append(accesses, in)
+					}
+				case *ssa.Range:
+					if isMapField(x.X) {
+						accesses = append(accesses, in)
+					}
+				default:
+					if cc := callCommon(in); cc != nil {
+						if b, ok := cc.Value.(*ssa.Builtin); ok && b.Name() == "delete" && len(cc.Args) > 0 && isMapField(cc.Args[0]) {
+							mutates = true
+							accesses = append(accesses, in)
+						}
+					}
+				}
+			})
+		}
+		if !mutates {
+			continue
+		}
+		fn := fname(f)
+		key := "C04.L11|" + fn
+		inst := "the operation reads and changes the relation set inside one write-locked critical section"
+		var locks, rlocks, unlocks []ssa.Instruction
+		deferredUnlock := false
+		eachInstr(f, func(in ssa.Instruction) {
+			m := mutexOpOf(in)
+			if m == nil {
+				return
+			}
+			switch m.kind {
+			case "Lock":
+				locks = append(locks, in)
+			case "RLock":
+				rlocks = append(rlocks, in)
+			case "Unlock", "RUnlock":
+				if m.deferred {
+					deferredUnlock = true
+				} else {
+					unlocks = append(unlocks, in)
+				}
+			}
+		})
+		var probs []string
+		if len(rlocks) > 0 {
+			probs = append(probs, "takes the read lock at "+a.P.Pos(rlocks[0].Pos()))
+		}
+		if len(locks) != 1 {
+			probs = append(probs, fmt.Sprintf("takes the write lock %d times", len(locks)))
+		} else {
+			for _, ac := range accesses {
+				if ac.Parent() != f {
+					continue
+				}
+				if !instrDominates(locks[0], ac) {
+					probs = append(probs, "touches the maps at "+a.P.Pos(ac.Pos())+" before the lock")
+				}
+				if !deferredUnlock {
+					for _, u := range unlocks {
+						if instrReachable(u, ac) && !instrReachable(ac, u) {
+							probs = append(probs, "touches the maps at "+a.P.Pos(ac.Pos())+" after the unlock")
+						}
+					}
+				}
+			}
+		}
+		if len(probs) > 0 {
+			r.Bad(rule, key, fn, a.P.Pos(f.Pos()), inst, strings.Join(uniq(probs), "; ")+": collecting and deleting are no longer one atomic step — a relation added in between is dropped without notification, or a requester that took its relation back is notified all the same")
+		} else {
+			r.OK(rule, key, fn, a.P.Pos(f.Pos()), inst, fmt.Sprintf("one Lock, %d map accesses, all inside it", len(accesses)))
+		}
+	}
+}
